@@ -149,7 +149,7 @@ func runCrash(r *run) error {
 					if kind == "cut" || kind == "cutback" {
 						// the other goroutine of the receiving side finishes in the background once
 						// the connection is closed: allow it a moment to run its deferred clean-up
-						for try := 0; try < 60 && len(final) > 0; try++ {
+						for try := 0; try < 200 && len(final) > 0; try++ {
 							extra := false
 							for n := range final {
 								if _, was := oldL[n]; !listed[n] && !was {
